@@ -289,3 +289,7 @@ def lean_lemma(V):
             raise T.EngineError('lean rejected lean/SdofSpec.lean: %s' % (r.stdout + r.stderr)[-400:])
         for thm in ('uSol_deriv', 'vSol_ode', 'uSol_init', 'vSol_init'):
             V.record(out, 'lean-theorem-' + thm, [], True, 'lemma', None, backend='lean4+mathlib')
+
+
+from pyvc.api import int_variant
+int_variant('C01', 'nigam_and_jennings_response', ['acc'])
